@@ -75,6 +75,8 @@ func doMatchMatches(expression *grammar.MatchExpression, value reflect.Value) (b
 		return false, fmt.Errorf("Value of type %s is not convertible to []byte", value.Type())
 	}
 
+	// The pattern is compiled when the evaluator is created; the syntax tree
+	// is shared by concurrent evaluations and must not be written to here.
 	var re *regexp.Regexp
 	var ok bool
 	if expression.Value.Converted != nil {
@@ -86,7 +88,6 @@ func doMatchMatches(expression *grammar.MatchExpression, value reflect.Value) (b
 		if err != nil {
 			return false, fmt.Errorf("Failed to compile regular expression %q: %v", expression.Value.Raw, err)
 		}
-		expression.Value.Converted = re
 	}
 
 	return re.Match(value.Convert(byteSliceTyp).Interface().([]byte)), nil
